@@ -640,6 +640,7 @@ func (r *runner) consume(limit int) bool {
 
 func (r *runner) doCancel() {
 	r.cancel()
+	qrec.note("cancel", r.res, 0)
 	seq := r.w.seq.Add(1)
 	r.mu.Lock()
 	if r.o.CancelSeq == 0 {
@@ -753,12 +754,15 @@ func runSolo(sc scenario, scratch string, guard *h.StdioGuard) (o obs) {
 		c.faultQ, c.fault, c.faultErr = 1, sc.Fault, fmt.Errorf("verif injected failure %s: %w", sc.Fault, h.ErrInjected)
 		r.o.Injected = 1
 	}
+	qrec.begin()
+	defer qrec.end(sc)
 	res, err := w.eng.Query(r.ctx, w.query())
 	if err != nil {
 		o.Infra = "query: " + err.Error()
 		return
 	}
 	r.res = res
+	qrec.note("bind", res, 1)
 	// consumer
 	limit := -1
 	switch {
@@ -822,6 +826,7 @@ func runSolo(sc scenario, scratch string, guard *h.StdioGuard) (o obs) {
 		r.mu.Lock()
 		r.o.Hung = true
 		r.mu.Unlock()
+		qrec.spoil()
 		r.cancel()
 		waitCh(r.falseCh, allowance)
 	}
@@ -851,6 +856,7 @@ func runSolo(sc scenario, scratch string, guard *h.StdioGuard) (o obs) {
 		r.o.ErrLater = append(r.o.ErrLater, classify(r.res.Err()))
 	}
 	finishObs(&o, w, []*runner{r})
+	qrec.end(sc)
 	if !r.o.Hung && !r.o.CloseHung && o.Leftover == 0 {
 		probe(&o, sc, w)
 	} else {
@@ -1063,6 +1069,8 @@ func runMulti(sc scenario, scratch string, guard *h.StdioGuard) (o obs) {
 	}()
 	c := w.c
 	c.gate = sc.GateReads
+	qrec.begin()
+	defer qrec.end(sc)
 	var rs []*runner
 	var live sync.WaitGroup
 	for q := 1; q <= sc.Queries; q++ {
@@ -1077,6 +1085,7 @@ func runMulti(sc scenario, scratch string, guard *h.StdioGuard) (o obs) {
 			return
 		}
 		r.res = res
+		qrec.note("bind", res, q)
 		rs = append(rs, r)
 		if !r.o.Stalled {
 			live.Add(1)
@@ -1127,6 +1136,7 @@ func runMulti(sc scenario, scratch string, guard *h.StdioGuard) (o obs) {
 			go r.consume(-1)
 			waitCh(r.falseCh, allowance)
 		} else if r.o.Hung {
+			qrec.spoil()
 			r.cancel()
 			waitCh(r.falseCh, allowance)
 		}
@@ -1140,6 +1150,7 @@ func runMulti(sc scenario, scratch string, guard *h.StdioGuard) (o obs) {
 	c.mu.Unlock()
 	finishObs(&o, w, rs)
 	o.InReadMax = inReadMax
+	qrec.end(sc)
 	probe(&o, sc, w)
 	for _, r := range rs {
 		r.cancel()
@@ -1211,6 +1222,9 @@ func generate(tier string, seed int64, scratch string, guard *h.StdioGuard) []sc
 	}
 	// a file whose block filter region spans several chunk reads (6 blocks x ~1.5 MiB of filters)
 	shapes = append(shapes, scenario{N: 2, Files: 1, Blocks: 6, Rows: 2, Bloom: true, Match: "some", Big: 130000})
+	// blocks with more matching rows than the cursor can absorb (4 batches of 64 in the channel, one pending, one per parked
+	// worker): whatever the timing, no scan finishes before the consumer moves, so a Close or cancel always lands mid-scan
+	shapes = append(shapes, scenario{N: 2, Files: 1, Blocks: 2, Rows: 800, Bloom: false, Match: "all"})
 	if tier == "thorough" {
 		shapes = append(shapes,
 			scenario{N: 2, Files: 3, Blocks: 3, Rows: 300, Bloom: true, Match: "some"},
@@ -1369,6 +1383,8 @@ func main() {
 	} else {
 		scs = generate(*tier, *seed, scratch, guard)
 	}
+	qrec.open(*out + "/qtrace.ndjson")
+	defer qrec.close()
 	f, err := os.Create(*out + "/obs.ndjson")
 	h.Must(err, "create obs")
 	enc := json.NewEncoder(f)
@@ -1399,6 +1415,7 @@ func main() {
 		h.Must(enc.Encode(o), "encode")
 	}
 	f.Close()
+	qrec.close()
 	os.RemoveAll(scratch)
 	total := guard.Len()
 	guard.Restore()
